@@ -3,6 +3,7 @@ package props
 import (
 	"fmt"
 	"math/rand"
+	"reflect"
 	"runtime"
 	"strings"
 	"time"
@@ -11,6 +12,7 @@ import (
 	"github.com/goghcrow/yae/types"
 	"github.com/goghcrow/yae/val"
 
+	"verif/harness/bridge"
 	"verif/harness/ref"
 	"verif/harness/run"
 )
@@ -201,6 +203,12 @@ func c12Families(thorough bool) []family {
 		{"and-or chains", func(d int) string { return "true" + rep("&&(true||false)", d) }, deep + 10},
 		{"strings", func(d int) string { return "\"" + rep("a", d) + "\"+" + "`" + rep("b", d) + "`" }, deep + 30},
 		{"unterminated string", func(d int) string { return rep("\"a", d) }, deep + 10},
+		{"object in nested lists as argument", func(d int) string { return "len(" + rep("[", d) + "{a:1}" + rep("]", d) + ")" }, deep + 10},
+		{"object in nested map values as argument", func(d int) string { return "len(" + rep("[1:", d) + "{a:1, b:\"x\"}" + rep("]", d) + ")" }, deep + 10},
+		{"object in nested lists as operand", func(d int) string {
+			return rep("[", d) + "{a:1}" + rep("]", d) + "==" + rep("[", d) + "{a:2}" + rep("]", d)
+		}, deep + 10},
+		{"object in mixed nests as argument", func(d int) string { return "string(" + rep("[[1:", d/2) + "{a:[1]}" + rep("]]", d/2) + ")" }, deep + 10},
 		{"time literals", func(d int) string { return rep("'2020-01-01'-", d) + "'@0'" }, deep},
 		{"long numbers", func(d int) string { return rep("9", d) + "." + rep("9", d) + "e" + rep("9", 1) }, deep + 30},
 	}
@@ -391,13 +399,111 @@ func runC12(c *run.Ctx) {
 			c.Distinct(fmt.Sprintf("big-conditional/%d", n))
 		})
 	}
+	// 7. conditionals placed across the 64 KiB jump range, size by size (built
+	// as trees: the quadratic lexer would make a sweep of sources too slow):
+	// the VM either refuses ("overflow") or computes the value; it never loops
+	// (a loop is seen by the parent as a stall) and never jumps elsewhere
+	for i, n := 0, 21780; n <= 21880; i, n = i+1, n+1 {
+		if !c.Mine(i) || (!c.Thorough() && (n < 21825 || n > 21850)) {
+			continue
+		}
+		n := n
+		c.Case(fmt.Sprintf("jump-range/%d", n), func() {
+			env := bridge.NewEnv()
+			env.Put("b", ref.VBool(true))
+			one := func(int) *ref.E { return ref.Num("1", 1) }
+			shapes := []*ref.E{
+				ref.CallF(ref.FTernary, "if", ref.CallF(ref.FInfix, ">", ref.Call("len", wideList(n, one)), ref.Num("0", 0)), ref.Num("1", 1), ref.Num("2", 2)),
+				ref.Call("if", ref.Ident("b"), ref.Call("len", wideList(n, one)), ref.Num("0", 0)),
+				ref.CallF(ref.FInfix, "&&", ref.CallF(ref.FInfix, ">", ref.Call("len", wideList(n-3, one)), ref.Num("0", 0)), ref.Ident("b")),
+				ref.CallF(ref.FInfix, "+", ref.Call("len", wideList(n-8, one)), ref.Call("if", ref.Ident("b"), ref.Num("5", 5), ref.Num("6", 6))),
+			}
+			for si, e := range shapes {
+				c.Input(fmt.Sprintf("conditional around a %d-element list (shape %d)", n, si))
+				c.Count("api_calls", 1)
+				pc := &ProgCase{ID: fmt.Sprintf("jump-range/%d/%d", n, si), Src: fmt.Sprintf("<conditional around %d elements, shape %d>", n, si), E: e, Env: env, AsAST: true, Back: []bridge.Backend{bridge.VM, bridge.Closure}}
+				o := RunProg(pc)
+				for bi, b := range o.Back {
+					if b == nil || b.Skipped != "" {
+						continue
+					}
+					name := bridge.Backend(bi).String()
+					if b.CompErr != nil {
+						if b.CompErr.Stage != "codegen" {
+							c.Violation("api-panic", fmt.Sprintf("%s: %s is refused at stage %s: %s", name, pc.Src, b.CompErr.Stage, b.CompErr.Msg), nil)
+						}
+						c.Count("jump_range_refusals", 1)
+						continue
+					}
+					if o.RefOut.V != nil && (b.Res.Class != bridge.OValue || b.Ill != nil || !ref.Same(b.RV, o.RefOut.V)) {
+						c.Violation("wrong-result-at-jump-range", fmt.Sprintf("%s: %s ends %s; the value is %s", name, pc.Src, b.describe(), ref.Dump(o.RefOut.V)), nil)
+					}
+				}
+			}
+			c.Distinct(fmt.Sprintf("jump-range/%d", n))
+		})
+	}
+	// 8. types nested around an object as call / operator arguments (literal and host data)
+	c.Case("host-nest-cost", func() {
+		if !c.Mine(11) {
+			return
+		}
+		type leaf struct {
+			A float64 `yae:"a"`
+		}
+		var prev float64
+		var series []string
+		maxd := 22
+		if c.Thorough() {
+			maxd = 26
+		}
+		for d := 1; d <= maxd; d++ {
+			t := reflect.TypeOf(leaf{})
+			v := reflect.ValueOf(leaf{1})
+			for k := 0; k < d; k++ {
+				if k%2 == 0 {
+					s := reflect.MakeSlice(reflect.SliceOf(t), 1, 1)
+					s.Index(0).Set(v)
+					t, v = s.Type(), s
+				} else {
+					m := reflect.MakeMap(reflect.MapOf(reflect.TypeOf(""), t))
+					m.SetMapIndex(reflect.ValueOf("k"), v)
+					t, v = m.Type(), m
+				}
+			}
+			env := map[string]interface{}{"v": v.Interface()}
+			c.Input(fmt.Sprintf("len(v) + (v == v ? 1 : 0) over host data nested %d deep around a struct", d))
+			runtime.GC()
+			before := mallocs()
+			o := guard(func() error {
+				cl, err := yae.NewExpr().Compile("len(v) + (v == v ? 1 : 0)", env)
+				if err == nil {
+					_, err = cl(env)
+				}
+				return err
+			})
+			cost := float64(mallocs() - before)
+			series = append(series, fmt.Sprintf("%d:%.0f", d, cost))
+			c.Count("family_measurements", 1)
+			if o.panicked != "" {
+				c.Violation("api-panic", fmt.Sprintf("host data nested %d deep around a struct: panic %s", d, o.panicked), nil)
+				return
+			}
+			if d > 8 && prev > 5000 && cost/prev >= 1.7 {
+				c.Violation("super-polynomial-cost", fmt.Sprintf("host data nested around a struct: compile+evaluate cost grows by a factor %.2f from depth %d to %d (allocations %s)", cost/prev, d-1, d, strings.Join(series, " ")), nil)
+				return
+			}
+			prev = cost
+		}
+		c.Distinct("host-nest-cost")
+	})
 	_ = rand.Int
 }
 
 func init() {
 	run.Register(&run.Spec{
 		ID: "C12", Run: runC12, Level: "exploration",
-		Rule: "Eval, Debug, Compile (vm and closure compilers) and the returned Callable driven with: random strings <= 64 runes over a 70-piece token / operator / quote / non-ASCII / NUL / invalid-UTF-8 alphabet and raw bytes; token-level mutations of generated programs with 20% failing sub-terms (run-time failures through Callable and Debug); 42 hostile host values (untyped nil, typed nil pointer, pointer to nil pointer, nil map / slice at top level and nested, chan, func, complex, uintptr, self-referential struct, map / slice containing itself, slices nested 100 / 101 / 5000 deep, *types.Env / *val.Env as host data, mixed / empty interface slices, non-string map keys, unexported fields); 27 nesting families (open / balanced brackets, maps, objects, parentheses, calls, ternaries, unary / binary chains, member / subscript chains, strings, time literals) measured per depth d, and depth 100 / 500 / 2000; " +
+		Rule: "Eval, Debug, Compile (vm and closure compilers) and the returned Callable driven with: random strings <= 64 runes over a 70-piece token / operator / quote / non-ASCII / NUL / invalid-UTF-8 alphabet and raw bytes; token-level mutations of generated programs with 20% failing sub-terms (run-time failures through Callable and Debug); 42 hostile host values (untyped nil, typed nil pointer, pointer to nil pointer, nil map / slice at top level and nested, chan, func, complex, uintptr, self-referential struct, map / slice containing itself, slices nested 100 / 101 / 5000 deep, *types.Env / *val.Env as host data, mixed / empty interface slices, non-string map keys, unexported fields); 31 nesting families (list / map nests around an object as call or operator argument, also as host data; open / balanced brackets, maps, objects, parentheses, calls, ternaries, unary / binary chains, member / subscript chains, strings, time literals) measured per depth d, and depth 100 / 500 / 2000; conditionals placed across the 64 KiB jump range size by size (21780..21880 list elements, four shapes, built as trees): refusal or the right value; " +
 			"monitor: any panic escaping an entry point; process death (stack exhaustion, fatal error) and stalls seen by the parent; logical cost = heap allocations (runtime.MemStats.Mallocs delta): single input <= 3e6 + 400 (n+10)^3, family growth ratio cost(d+1)/cost(d) < 1.7 for d > 8 (polynomial growth gives <= 1.42, doubling gives 2). distinct = distinct input",
 		Assume: []string{"termination is restated as bounded cost: no wall-clock reading enters a verdict; a stall is confirmed by re-running the case alone", "time and cost of the quadratic lexer are polynomial and therefore allowed"},
 		Builds: []string{"asan"}, SanFrac: 8,
